@@ -37,7 +37,7 @@ PDH_RE = re.compile(rb"\A[0-9a-f]{32}\+([0-9]+)\Z")
 
 
 def channel(case):
-    return "sch" if case.startswith("rq ") else "dc"
+    return "sch" if case.startswith(("rq ", "rqp ")) else "dc"
 
 
 # ----------------------------------------------------------------------------- spec helpers (oracle)
@@ -244,7 +244,9 @@ def _fact(n):
     return r
 
 
-def _gen_rq(rng, maxn):
+def _gen_rq(rng, maxn, real=False):
+    """real=True: a pass against the real worker.Pool (op rqp): AtQuota is all-or-nothing, StartContainer
+    succeeds iff an idle worker of the type exists, KillContainer is true only for containers in Running()."""
     nt = rng.choice([1, 1, 2, 2, 3])
     while True:
         n = rng.randint(2, maxn) if rng.random() < 0.8 else rng.choice([maxn, 0, 1, 2, 3])
@@ -262,8 +264,12 @@ def _gen_rq(rng, maxn):
             fl = ""
             if rng.random() < 0.1:
                 fl += "r"
-            if rng.random() < 0.12:
+            if rng.random() < 0.12 and not real:
                 fl += "k"
+            if rng.random() < 0.08:
+                fl += "o"
+            if rng.random() < 0.08:
+                fl += "c"
             ents.append((u, prio, st, ty, fl or "-"))
         # bound the number of outcomes of the unstable sort (the model prints every one)
         counts = {}
@@ -275,11 +281,12 @@ def _gen_rq(rng, maxn):
         if orders <= 150:
             break
     rng.shuffle(ents)
-    quota = rng.choice([0, 0, 1, 2, 99, 99, 99])
+    quota = rng.choice([0, 0, 99, 99, 99]) if real else rng.choice([0, 0, 1, 2, 99, 99, 99])
     cancreate = rng.choice([0, 1, 2, 99, 99, 99])
-    types = ",".join(f"{rng.choice([0, 0, 1, 1, 2])}:{rng.choice([0, 0, 1, 2])}:{rng.choice('iiiiiifsx')}" for _ in range(nt))
+    modes = "i" if real else "iiiiiifsx"
+    types = ",".join(f"{rng.choice([0, 0, 1, 1, 2])}:{rng.choice([0, 0, 1, 2])}:{rng.choice(modes)}" for _ in range(nt))
     es = ",".join(f"{u}:{p}:{st}:{ty}:{fl}" for u, p, st, ty, fl in ents) or "-"
-    return f"rq {quota}:{cancreate} {types} {es}"
+    return f"{'rqp' if real else 'rq'} {quota}:{cancreate} {types} {es}"
 
 
 MALFORMED = [
@@ -300,6 +307,11 @@ MALFORMED = [
     "rq 1:1 0:0:i 1:1:L:0:z",
     "rq 1:1 0:0:i 1:1:L:0:-,1:2:L:0:-",
     "rq 1:1 0:0:i 1:1:L:0",
+    "rqp 1:99 0:0:i 1:1:L:0:-",
+    "rqp 0:99 0:0:s 1:1:L:0:-",
+    "rqp 0:99 0:0:i 1:1:L:0:k",
+    "rqp 0:99 0:0:i 1:1:L:1:-",
+    "rqp 0:99 0:0:i 1:1:L:1:r",
     "frob 1 2 3",
 ]
 
@@ -313,6 +325,8 @@ def generate(rng, tier):
         cases.append(_gen_arith(rng))
     for _ in range(1500 if quick else 60000):
         cases.append(_gen_rq(rng, 6 if quick and rng.random() < 0.7 else 8))
+    for _ in range(500 if quick else 15000):
+        cases.append(_gen_rq(rng, 6 if quick and rng.random() < 0.7 else 8, real=True))
     return cases
 
 
@@ -345,7 +359,7 @@ def compare(case, impl, model):
             # the model separates groups with '|' too; the implementation's '|' separates repeats
             return all(o.startswith("unsat:") and _groups_ok(o[6:].split(","), groups) for o in outs)
         return False
-    if case.startswith("rq "):
+    if case.startswith(("rq ", "rqp ")):
         return impl in model.split("|")
     return False
 
@@ -482,7 +496,7 @@ def oracle(case, impl):
             return _oracle_choose(case, impl)
         if case.startswith("arith ") and impl != "bad-op":
             return _oracle_arith(case, impl)
-        if case.startswith("rq ") and impl != "bad-op":
+        if case.startswith(("rq ", "rqp ")) and impl != "bad-op":
             return _oracle_rq(case, impl)
     except (ValueError, IndexError, KeyError):
         return None                          # malformed case line: nothing to decide
@@ -496,7 +510,7 @@ def nontrivial_key(case, impl):
     try:
         if f[0] == "choose":
             return case if len(_types(f[2])) >= 2 else None
-        if f[0] == "rq":
+        if f[0] in ("rq", "rqp"):
             ents = _parse_rq(case)
             live = [e for e in ents.values() if not e["running"] and e["prio"] >= 1 and e["st"] != "O"]
             return case if len(live) >= 2 else None
@@ -523,7 +537,7 @@ def describe(cases, impl):
                 d["choose_outcomes"][kind] = d["choose_outcomes"].get(kind, 0) + 1
                 if "|" in r:
                     d["choose_runs_with_several_results"] += 1
-            elif f[0] == "rq":
+            elif f[0] in ("rq", "rqp"):
                 ents = _parse_rq(c)
                 k = str(len(ents))
                 d["rq_sizes"][k] = d["rq_sizes"].get(k, 0) + 1
@@ -557,9 +571,9 @@ def neighbours(case, rng):
                 mss = ";".join(f"{k}={c}" for k, c in ms) or "-"
                 out.append(f"choose {f[1]} {f[2]} {v2}:{ram2}:{keep}:{pre2} {f[4]} {mss}")
             out.append(_gen_choose(rng))
-        elif f[0] == "rq":
+        elif f[0] in ("rq", "rqp"):
             for _ in range(4):
-                out.append(_gen_rq(rng, 6))
+                out.append(_gen_rq(rng, 6, real=f[0] == "rqp"))
             es = f[3].split(",") if f[3] != "-" else []
             if es:
                 i = rng.randrange(len(es))
@@ -567,8 +581,8 @@ def neighbours(case, rng):
                 p[1] = str(max(0, int(p[1]) + rng.choice([-1, 1])))
                 es2 = list(es)
                 es2[i] = ":".join(p)
-                out.append(f"rq {f[1]} {f[2]} {','.join(es2)}")
-                out.append(f"rq {rng.choice([0, 1, 99])}:{rng.choice([0, 1, 99])} {f[2]} {f[3]}")
+                out.append(f"{f[0]} {f[1]} {f[2]} {','.join(es2)}")
+                out.append(f"{f[0]} {rng.choice([0, 99] if f[0] == 'rqp' else [0, 1, 99])}:{rng.choice([0, 1, 99])} {f[2]} {f[3]}")
         elif f[0] == "arith":
             out.append(_gen_arith(rng))
     except (ValueError, IndexError):
